@@ -130,13 +130,31 @@ func (c10) Gen(seed uint64, tier string) *Scenario {
 	ncommit := r.Pick(1, 1, 2)
 	for cidx := 0; cidx < ncommit; cidx++ {
 		touched := 0
+		if r.Bool(0.1) {
+			// a transaction that is rolled back before the one that commits
+			m.Stmts = append(m.Stmts, fmt.Sprintf("UPDATE `%s` SET n = n + 100;", m.Tables[0].Name), fmt.Sprintf("CREATE TABLE `gone%d.csv` (a);", cidx), "ROLLBACK;")
+		}
 		for i, t := range m.Tables {
 			if touched > 0 && r.Bool(0.3) {
 				continue
 			}
 			touched++
 			q := "`" + t.Name + "`"
-			switch r.Intn(4) {
+			switch r.Intn(8) {
+			case 4:
+				// statements that rebuild the whole table or change how it is written
+				m.Stmts = append(m.Stmts, fmt.Sprintf("ALTER TABLE %s ADD x%d DEFAULT n * 2;", q, cidx), fmt.Sprintf("UPDATE %s SET n = x%d + 1;", q, cidx), fmt.Sprintf("ALTER TABLE %s DROP x%d;", q, cidx))
+			case 5:
+				if t.Format == "csv" || t.Format == "tsv" {
+					m.Stmts = append(m.Stmts, fmt.Sprintf("ALTER TABLE %s SET %s;", q, r.PickS("LINE_BREAK TO CRLF", "ENCLOSE_ALL TO TRUE", "ENCODING TO UTF8M", "LINE_BREAK TO LF")), fmt.Sprintf("UPDATE %s SET n = n + 3;", q))
+				} else {
+					m.Stmts = append(m.Stmts, fmt.Sprintf("ALTER TABLE %s RENAME s TO s%d;", q, cidx), fmt.Sprintf("ALTER TABLE %s RENAME s%d TO s;", q, cidx))
+				}
+			case 6:
+				m.Stmts = append(m.Stmts, fmt.Sprintf("REPLACE INTO %s (id, n, s) USING (id) VALUES (1, 5, 'r'), (%d, 5, 'r');", q, 9500+cidx*10+i))
+			case 7:
+				o := "`" + m.Tables[(i+1)%len(m.Tables)].Name + "`"
+				m.Stmts = append(m.Stmts, fmt.Sprintf("UPDATE %s SET n = (SELECT COUNT(*) FROM %s x) WHERE id %% 2 = 1;", q, o), fmt.Sprintf("INSERT INTO %s SELECT id + %d, n, s FROM %s y WHERE id < 3;", q, 7000+cidx*100+i*10, o))
 			case 0:
 				m.Stmts = append(m.Stmts, fmt.Sprintf("UPDATE %s SET n = n + 1;", q))
 			case 1:
@@ -153,6 +171,9 @@ func (c10) Gen(seed uint64, tier string) *Scenario {
 		}
 		if r.Bool(0.3) {
 			m.Stmts = append(m.Stmts, fmt.Sprintf("CREATE TABLE `new%d.csv` (a, b);", cidx), fmt.Sprintf("INSERT INTO `new%d.csv` VALUES (1, 'created');", cidx))
+		} else if r.Bool(0.15) {
+			// created from a query, in another format
+			m.Stmts = append(m.Stmts, fmt.Sprintf("CREATE TABLE `made%d.%s` (a, b) AS SELECT id, s FROM `%s`;", cidx, r.PickS("tsv", "json", "csv"), m.Tables[0].Name))
 		}
 		if cidx < ncommit-1 || r.Bool(0.5) {
 			m.Stmts = append(m.Stmts, "COMMIT;")
